@@ -22,12 +22,12 @@ Definition attr_mention (a : sattr) : aattr :=
     end in
   mkAAttr (Some (sa_name a)) v ty (sa_boolean a) (sa_implied a) false.
 
-Definition short_mention (nm v : str) : aattr := mkAAttr (Some nm) (Some [VStr v]) VRaw false false false.
+Definition short_mention (nm v : str) (multiple : bool) : aattr := mkAAttr (Some nm) (Some [VStr v]) VRaw false false multiple.
 
 Definition part_mentions (p : spart) : list aattr :=
   match p with
-  | PId v => [short_mention s_id v]
-  | PClass v => [short_mention s_class v]
+  | PId k v => [short_mention s_id v (Nat.ltb 1 (S k))]          (* `##v`: a "multiple" mention *)
+  | PClass k v => [short_mention s_class v (Nat.ltb 1 (S k))]
   | PSet l => map attr_mention l
   end.
 Definition written_mentions (e : selem) : list aattr := flat_map part_mentions (se_parts e).
@@ -219,9 +219,9 @@ Proof.
     rewrite stringify_payload. reflexivity.
 Qed.
 
-Lemma convert_short env nm pos v st :
+Lemma convert_short env nm pos v m st :
   (nm = s_id \/ nm = s_class) ->
-  convert_attribute env (short_tattr nm pos v) st = Ok (short_mention nm v, st).
+  convert_attribute env (short_tattr nm pos v m) st = Ok (short_mention nm v m, st).
 Proof.
   intros Hn. rewrite convert_attribute_unfold. unfold short_tattr. cbn [ta_name ta_value ta_expression ta_multiple nonempty].
   rewrite (stringify_name_lit env (literal_tok nm) nm st eq_refl). cbn [bind].
@@ -254,7 +254,7 @@ Qed.
 
 Lemma pointwise_part env pos p : spart_ok p -> pointwise env (part_tattrs pos p) (part_mentions p).
 Proof.
-  destruct p as [v|v|l]; cbn [spart_ok part_tattrs part_mentions]; intros Hok.
+  destruct p as [k v|k v|l]; cbn [spart_ok part_tattrs part_mentions]; intros Hok.
   - constructor; [intros st; apply convert_short; auto|constructor].
   - constructor; [intros st; apply convert_short; auto|constructor].
   - apply pointwise_set. exact Hok.
